@@ -174,6 +174,9 @@ pub const WIN_SEEDS: &[&[u8]] = &[
     br"\\?\",
     br"\\?\UNC\s\h",
     br"\\?\UNC\s",
+    br"\\?\UNC\s\",
+    b"//?/UNC/s/",
+    br"\\s\",
     br"\\?\UNC\",
     br"\\?\UNC",
     b"//?/UNC/s/h",
@@ -761,10 +764,12 @@ pub fn dom_args(win: bool, tier: &str, seed: u64) -> Vec<Vec<u8>> {
     }
     let extra: &[&[u8]] = if win {
         &[br"a\b", br"a\..\..\b", br"..\a", br"a\..", br".\a", br"a\.\b", b"C:", b"C:a", br"C:\a", br"\\s\h\a",
-          br"\\?\C:\a", br"\a", b"/a", br"a|b\c", br"a\b*", b"a/../..", br".\..", b"a/b/../../..", br"\\a", b"//a", b"a\\\\b"]
+          br"\\?\C:\a", br"\a", b"/a", br"a|b\c", br"a\b*", b"a/../..", br".\..", b"a/b/../../..", br"\\a", b"//a", b"a\\\\b",
+          // an invalid name that a later `..` cancels, a traversal that a later name would balance
+          br"a|b\..\c", br"|\..", br"d\a:b\..\..\e", br"a\..\..\b\c"]
     } else {
         &[b"a/b", b"a/../../b", b"../a", b"a/..", b"./a", b"a/./b", b"/a", b"a\0/b", b"a/b\0", b"a/../..", b"./..",
-          b"a/b/../../..", b"//a", b"a//b"]
+          b"a/b/../../..", b"//a", b"a//b", b"a\0b/../c", b"\0/..", b"a/../../b/c"]
     };
     for x in extra {
         v.push(x.to_vec());
